@@ -74,7 +74,10 @@ fn main() {
     let rest = rest.trim_end_matches('/');
     if let Some(log) = log {
         if let Ok(mut f) = fs::OpenOptions::new().create(true).append(true).open(log) {
-            let _ = writeln!(f, "{}", rest);
+            // one write call per line: concurrent invocations append to the same file, and `writeln!`
+            // may split the text and the newline into two writes that interleave
+            let line = format!("{}\n", rest);
+            let _ = f.write_all(line.as_bytes());
         }
     }
     let srcdir = root.join(rest);
